@@ -62,13 +62,33 @@ func writeTo(fr *frame, w value, s string) {
 }
 
 // symSprintf formats like fmt.Sprintf but keeps symbolic bytes of string arguments under %s/%v.
-func symSprintf(fr *frame, format string, args []value) value {
+// fmtDepth > 0 while a message is being formatted: a symbolic integer that is printed in
+// decimal inside a message (a Number, a range, a count) is rendered as the placeholder
+// "<sym>" instead of forking over its digits (numintr.go). Message text containing symbolic
+// numbers is not the subject of any check; positions (concrete line/column) print normally.
+var fmtDepth int
+
+func symSprintf(fr *frame, formatV value, args []value) value {
+	fmtDepth++
+	defer func() { fmtDepth-- }()
 	var out []value
 	ai := 0
+	fb := strBytes(formatV)
+	// a symbolic byte of the format is copied literally (it is message text built by
+	// concatenation, e.g. `invalid escape sequence: \`+string(c)); verbs are concrete bytes
+	fbytes := make([]byte, len(fb))
+	for i, b := range fb {
+		if c, ok := b.(byte); ok {
+			fbytes[i] = c
+		} else {
+			fbytes[i] = 0
+		}
+	}
+	format := string(fbytes)
 	for i := 0; i < len(format); i++ {
 		c := format[i]
 		if c != '%' {
-			out = append(out, c)
+			out = append(out, fb[i])
 			continue
 		}
 		j := i + 1
@@ -92,12 +112,14 @@ func symSprintf(fr *frame, format string, args []value) value {
 		a := args[ai]
 		ai++
 		if it, ok := a.(iface); ok {
-			if _, isStr := it.v.(symstr); !isStr && hasSymDeep(it.v, 5) {
-				// a value with symbolic scalars (a Number, a range, an integer) inside a message:
-				// rendered as an opaque placeholder instead of forking over its decimal digits.
-				// Message text with symbolic numbers is not the subject of any check.
-				out = append(out, strBytes("<sym>")...)
-				continue
+			switch it.v.(type) {
+			case structure, []value, array:
+				if hasSymScalar(it.v, 4) {
+					// a struct or slice value with symbolic numbers (Number, YRange, YangRange) in a
+					// message: opaque placeholder, its String method is not run
+					out = append(out, strBytes("<sym>")...)
+					continue
+				}
 			}
 		}
 		if it, ok := a.(iface); ok && (verb == "%s" || verb == "%v") {
@@ -124,12 +146,19 @@ func symSprintf(fr *frame, format string, args []value) value {
 
 func init() {
 	externals["fmt.Sprintf"] = func(fr *frame, args []value) value {
-		return symSprintf(fr, args[0].(string), args[1].([]value))
+		return symSprintf(fr, args[0], args[1].([]value))
 	}
 	externals["fmt.Fprintf"] = func(fr *frame, args []value) value {
-		s := fmt.Sprintf(args[1].(string), renderArgs(fr, args[2].([]value))...)
-		writeTo(fr, args[0], s)
-		return tuple{len(s), iface{}}
+		// the formatted text keeps its symbolic bytes (it may be read back, e.g. from a bytes.Buffer)
+		s := symSprintf(fr, args[1], args[2].([]value))
+		bs := strBytes(s)
+		it := args[0].(iface)
+		sel := fr.i.prog.MethodSets.MethodSet(it.t).Lookup(nil, "Write")
+		if sel == nil {
+			panic(unsupported("fmt: writer without Write"))
+		}
+		call(fr.i, fr, token.NoPos, fr.i.prog.MethodValue(sel), []value{it.v, append([]value{}, bs...)})
+		return tuple{len(bs), iface{}}
 	}
 	externals["fmt.Fprintln"] = func(fr *frame, args []value) value {
 		s := fmt.Sprintln(renderArgs(fr, args[1].([]value))...)
@@ -137,7 +166,7 @@ func init() {
 		return tuple{len(s), iface{}}
 	}
 	externals["fmt.Errorf"] = func(fr *frame, args []value) value {
-		s := symSprintf(fr, args[0].(string), args[1].([]value))
+		s := symSprintf(fr, args[0], args[1].([]value))
 		newFn := fr.i.prog.ImportedPackage("errors").Func("New")
 		return call(fr.i, fr, token.NoPos, newFn, []value{s})
 	}
@@ -176,6 +205,43 @@ func hasSymDeep(v value, depth int) bool {
 	case *value:
 		if v != nil {
 			return hasSymDeep(*v, depth-1)
+		}
+	}
+	return false
+}
+
+// hasSymScalar is hasSymDeep restricted to symbolic scalars outside strings (a symbolic
+// integer or bool field); strings with symbolic bytes do not count.
+func hasSymScalar(v value, depth int) bool {
+	if depth < 0 {
+		return false
+	}
+	switch v := v.(type) {
+	case symv, symm:
+		return true
+	case structure:
+		for _, x := range v {
+			if hasSymScalar(x, depth-1) {
+				return true
+			}
+		}
+	case array:
+		for _, x := range v {
+			if hasSymScalar(x, depth-1) {
+				return true
+			}
+		}
+	case []value:
+		for _, x := range v {
+			if hasSymScalar(x, depth-1) {
+				return true
+			}
+		}
+	case iface:
+		return hasSymScalar(v.v, depth-1)
+	case *value:
+		if v != nil {
+			return hasSymScalar(*v, depth-1)
 		}
 	}
 	return false
